@@ -1,6 +1,7 @@
 //! Shared helpers of the implementation-side runners (one binary per property
 //! under src/bin/): hex conversion, offsets of sub-slices, the case loop.
 #![allow(dead_code)]
+pub mod parsefmt;
 use std::io::{BufRead, Write};
 
 /// Runs `f` on every case line of the file given as first argument and prints
